@@ -340,7 +340,7 @@ fn run_once(c: &PolicyCase, env: &Env) -> Run {
             run.labels.push("interval-sync".into());
             let sync_ms = c.interval_ms.clamp(10, 100) as u64;
             shim::register(&env.scratch);
-            shim::record_start();
+            shim::record_start_fsync_only();
             let kv = match catch(|| config_json(&base_cfg, &dir, None, Some(serde_json::json!({ "interval_ms": sync_ms }))).open()) {
                 Ok(Ok(kv)) => kv,
                 _ => {
